@@ -62,6 +62,14 @@ class _RenameTargetInstance(DefaultTransformVisitor):
         s = IndexedAssign(var, slices, expr, stmt.loc)
         return s, None
 
+    def _visit_context(self, stmt: ContextStmt, ctx: None):
+        # `with e as c:` binds `c`: rename the target together with its uses
+        ctx_e = self._visit_expr(stmt.ctx, ctx)
+        target = self._visit_binding(stmt.target, ctx)
+        body, _ = self._visit_block(stmt.body, ctx)
+        s = ContextStmt(target, ctx_e, body, stmt.loc)
+        return s, None
+
     def _visit_for(self, stmt: ForStmt, ctx: None):
         iterable = self._visit_expr(stmt.iterable, ctx)
         target = self._visit_binding(stmt.target, ctx)
